@@ -2309,8 +2309,13 @@ impl<'a> Model<'a> {
                 let ws = self.workbook.worksheet_mut(sheet)?;
                 for r in row..row + height {
                     for c in column..column + width {
-                        // We ignore errors here
-                        let _ = ws.cell_clear_contents(r, c);
+                        // Only what the formula spilled: a cell of the area that was
+                        // given content of its own in the meantime (a paste) stays
+                        if matches!(ws.cell(r, c), Some(Cell::SpillCell { a, .. }) if *a == (row, column))
+                        {
+                            // We ignore errors here
+                            let _ = ws.cell_clear_contents(r, c);
+                        }
                     }
                 }
             }
@@ -2348,8 +2353,11 @@ impl<'a> Model<'a> {
                         if r == anchor_row && c == anchor_column {
                             continue;
                         }
-                        // We ignore errors here
-                        let _ = ws.cell_clear_contents(r, c);
+                        if matches!(ws.cell(r, c), Some(Cell::SpillCell { a, .. }) if *a == (anchor_row, anchor_column))
+                        {
+                            // We ignore errors here
+                            let _ = ws.cell_clear_contents(r, c);
+                        }
                     }
                 }
             }
